@@ -26,7 +26,7 @@ class C10(Prop):
     pid = "C10"
     pkg = "hdog"
     binname = "c10"
-    quick_cases = 3000
+    quick_cases = 2400
     thorough_cases = 40000
     shard = 250
     design_ref = "DESIGN.md 4 C10"
